@@ -162,6 +162,13 @@ def recheck_props(prop_file):
 
 def build_runner():
     """Extract the model and build the OCaml runner when any Model/Spec .vo is newer."""
+    # everything Extract.v imports must be compiled consistently first
+    ex = open(os.path.join(COQ, "Extract.v")).read()
+    mods = []
+    for kind, d in (("RxModel", "Model"), ("RxSpec", "Spec")):
+        for m in re.findall(r"From %s Require Import ([^.]*)\." % kind, ex):
+            mods += ["%s/%s.vo" % (d, x) for x in m.split()]
+    coq_make(mods)
     with Lock("ocaml"):
         runner = os.path.join(OCAML, "runner")
         deps = [os.path.join(COQ, "Extract.v"), os.path.join(OCAML, "driver.ml"), os.path.join(OCAML, "cases.ml")]
